@@ -67,8 +67,8 @@ prop("C06", also=["C07/hygiene/.*"],
      required_probes=["ws_upgraded", "drop:length prefix above the maximum", "drop:websocket payload above the maximum", "canary_ok", "short_read", "multi_message_read"])
 
 prop("C07", opts={"memprop": "C07"},
-     mix=[("c07", "default", 3), ("c07", "small", 2), ("c06", "default", 1.5), ("c06", "small", 1), ("c05", "default", 1), ("c07", "heapcap", 1)],
-     quick_mix=[("c07", "default", 2), ("c07", "small", 1), ("c06", "default", 1)],
+     mix=[("c07", "default", 3), ("c07", "small", 2), ("c06", "default", 1.5), ("c06", "small", 1), ("c05", "default", 1), ("c07", "heapcap", 1), ("c07s", "default", 0.5)],
+     quick_mix=[("c07", "default", 2), ("c07", "small", 1), ("c06", "default", 1), ("c07s", "default", 0.3)],
      quick_s=30, thorough_s=600,
      rule="connection histories (failed handshakes, every error response, repeated authentication, routing-table overflow, descriptor exhaustion on timer creation and epoll registration, peers vanishing with work in flight) "
           "followed by closing every connection or by SIGTERM between or inside event batches; three independent accountings (daemon's own counters, arena live set, simulated descriptor/timer/epoll tables) are compared with the idle baseline "
